@@ -172,16 +172,23 @@ func dischargeOne(w *World, i int, o *Obligation, opt dischargeOpts) {
 				secs    float64
 			}
 			ctx, cancel := context.WithCancel(context.Background())
-			ch := make(chan res, 2)
-			go func() {
-				st, out, secs := runSolverCtx(ctx, solvers[0], file, opt.timeoutS, opt.seed)
-				ch <- res{0, st, out, secs}
-			}()
-			go func() {
-				st, out, secs := runSolverCtx(ctx, solvers[1], cvcFile, opt.timeoutS, opt.seed)
-				ch <- res{1, st, out, secs}
-			}()
-			for k := 0; k < 2; k++ {
+			// contestants: both z3 versions, cvc5, and z3 5.1 under two more seeds — a goal that one run of one solver
+			// happens to time out on (quantifier instantiation order depends on the seed) must not decide a check
+			type contestant struct {
+				idx  int
+				file string
+				seed int
+			}
+			cs := []contestant{{0, file, opt.seed}, {1, cvcFile, opt.seed}, {0, file, opt.seed + 7}, {0, file, opt.seed + 13}, {2, file, opt.seed}}
+			ch := make(chan res, len(cs))
+			for _, c := range cs {
+				c := c
+				go func() {
+					st, out, secs := runSolverCtx(ctx, solvers[c.idx], c.file, opt.timeoutS, c.seed)
+					ch <- res{c.idx, st, out, secs}
+				}()
+			}
+			for k := 0; k < len(cs); k++ {
 				r := <-ch
 				if r.st == "cancelled" {
 					continue
@@ -205,7 +212,7 @@ func dischargeOne(w *World, i int, o *Obligation, opt dischargeOpts) {
 		}
 	}
 	for si, s := range solvers {
-		if raced && (si < 2 || o.Status == "unsat" || o.Status == "sat") {
+		if raced && (si < 3 || o.Status == "unsat" || o.Status == "sat") {
 			continue
 		}
 		t := opt.timeoutS
